@@ -4,6 +4,7 @@
 package main
 
 import (
+	"strings"
 	"encoding/json"
 	"flag"
 	"fmt"
@@ -215,6 +216,9 @@ func cmdGcs(args []string) {
 	}
 	rep := core.RunPrograms("gcs/"+*scenario, *seed, progs, gcs.Stores(*stores), gcs.Accept)
 	rep.Exhaustive = exhaustive
+	if strings.HasPrefix(*scenario, "c11") && *replay == "" {
+		gcs.RunTokenJudges(rep, *seed)
+	}
 	rep.Hypothesis = gcs.ClockHypothesis()
 	if err := rep.Write(*out); err != nil {
 		fmt.Fprintln(os.Stderr, err)
